@@ -46,7 +46,7 @@ ASSUMPTIONS = [
 PROBES = ["reconnect", "late-finaliser", "two-in-flight", "send-races-disconnect", "nonblocking-recv-empty", "nonblocking-recv-got", "callback-delivery",
           "structured", "silent", "broadcast", "broadcast-poll", "three-endpoints", "two-socket-ids", "connection-error-after-disconnect",
           "recv-timeout", "lock-contended", "stalled-thread", "late-starter", "connect-timeout-then-retry", "connect-attempt-races-with-peer",
-          "broadcast-endpoint-leaves-before-the-others-have-received"]
+          "broadcast-endpoint-leaves-before-the-others-have-received", "communication-log-enabled"]
 
 _mods: Dict[str, Any] = {}
 
@@ -132,7 +132,7 @@ def gen_scenario(ch: Choices, calm: bool, no_cb_reconnect: bool = False, tier: s
         k = ch.weighted([5, 4, 2, 1, 0 if calm else 1], "ev")
         d = (x, y, sid)
         if k == 0 and budget[x] > 0 and (x, y, sid) not in dropped:
-            script.append(("send", x, y, sid, kind_of[d]))
+            script.append(("send", x, y, sid, kind_of[d], (not calm) and ch.flag(1, 4, "eof-payload")))
             budget[x] -= 1
             inflight[d] = inflight.get(d, 0) + 1
         elif k == 1 and budget[y] > 0 and not callback[d] and (y, x, sid) not in dropped:
@@ -154,7 +154,7 @@ def gen_scenario(ch: Choices, calm: bool, no_cb_reconnect: bool = False, tier: s
             budget[x] -= 1
             reconnects.append((x, y, sid))
     return {"names": names, "broadcast": False, "script": script, "chans": chans, "callback": callback,
-            "reconnect": bool(reconnects), "impatient": sorted(impatient),
+            "reconnect": bool(reconnects), "impatient": sorted(impatient), "commlog": (not calm) and ch.flag(1, 4, "commlog"),
             "storage_cb": any(callback.values()) and ch.flag(1, 2, "storagecb")}
 
 
@@ -230,6 +230,12 @@ def run(ch: Choices, opts: Dict[str, Any]) -> Dict[str, Any]:
               "callback_receivers": [list(k) for k, v in sc["callback"].items() if v], "switch": sw}
 
     created: List[Any] = []
+    # the classical-communication log (an in-memory list unless saved) switches the logging wrappers of send / recv on
+    logkw: Dict[str, Any] = {}
+    if sc.get("commlog"):
+        from netqasm.sdk.config import LogConfig
+        logkw = {"log_config": LogConfig(comm_log_dir="/nonexistent/c18-comm-log")}
+        bump(probes, "communication-log-enabled")
     tries_done = [0]
     race_done = [False]
     race_info: Dict[str, Any] = {}
@@ -442,7 +448,7 @@ def run(ch: Choices, opts: Dict[str, Any]) -> Dict[str, Any]:
                 e = record(me, ("connect", peer, sid, usecb))
                 try:
                     cls = CbSock if usecb else TSock
-                    socks[(peer, sid)] = cls(me, peer, socket_id=sid, timeout=120.0, use_callbacks=usecb)
+                    socks[(peer, sid)] = cls(me, peer, socket_id=sid, timeout=120.0, use_callbacks=usecb, **logkw)
                     finish(e, "ok")
                 except Exception as x2:  # noqa: BLE001
                     finish(e, exc=type(x2).__name__)
@@ -456,7 +462,7 @@ def run(ch: Choices, opts: Dict[str, Any]) -> Dict[str, Any]:
                     continue
                 if k == "send":
                     payload_ctr[0] += 1
-                    p = f"m{payload_ctr[0]}"
+                    p = f"m{payload_ctr[0]}" + (" EOF" if len(ev) > 5 and ev[5] else "")   # (the logging wrappers treat EOF specially)
                     e = record(me, ("send", peer, sid, ev[4], p))
                     try:
                         if ev[4] == "structured":
@@ -758,4 +764,10 @@ def _payload(v: Any) -> Any:
 
 def cleanup() -> None:
     m = _load()
+    m["ts"].ThreadSocket._COMM_LOGGERS.clear()
+    try:
+        import netqasm.logging.output as _out
+        _out._STRUCT_LOGGERS.clear()
+    except Exception:  # noqa: BLE001
+        pass
     m["sh"].sleep, m["sh"].timer, m["sh"].Lock, m["bc"].timer = m["orig"]
